@@ -49,6 +49,10 @@ CLAIMS.update({
    text="Partial. Deductive proofs for the literal paths: the scanner accepts exactly the seven escape sequences (a b n r t backslash and the literal's own quote) and reports every other one; lemmas show that scanner and parser use the same escape sets for characters and for texts; parseChar is proved against its total functional specification (one code point denotes itself, backslash+escape denotes the escape's value, unknown escapes are reported, anything else yields -1); parseIntLit returns the written value when strconv accepts the literal and otherwise delivers a diagnostic with value 0 (never a silently altered value); the text un-escaping loop parseString is proved memory-safe and terminating. The functional correctness of parseString's result, decimal rounding and the run-time side are not decided.",
    note="Trusted: utf8/strings/strconv contracts (first/last code point, ParseInt succeeds exactly on representable literals), string-length axioms of the engine's string model, diagnostic handler model.",
    ref="6/C19"),
+ "C03": dict(
+   text="Partial. Scanner: every function is proved panic-free (all index/slice expressions, nil dereferences) and terminating (explicit loop variants) on every valid UTF-8 input, and New refuses invalid UTF-8 (shared with C13). Parser: the token-cursor primitives (peek, peekN, previous, advance, decrease, check, atEnd, matchAny, matchSeq) never leave the token slice under the cursor invariant established by newParser; synchronize and the text un-escaping loop terminate; the WalkDir callback of directory imports uses the directory entry only where WalkDir guarantees it is non-nil. Type recursion (GetUnderlying, TrueUnderlying) terminates under acyclic type graphs (decreases clauses). Zero-annotation safety sweep: every function of typechecker and resolver without a contract is executed with havocked callees and no precondition; each type assertion, index/slice expression and division whose safety follows from the function's own guards is an obligation in the ledger (so deleting a guard fails a named clause). Not decided: progress of the main parsing loops, panic-freedom of the remaining parser functions, nil-freedom of AST links.",
+   note="Trusted: utf8 contracts; the sweep assumes nil-freedom of receivers/fields; WalkDir's documented behaviour (nil entry only with the root path).",
+   ref="6/C03"),
 })
 NA = {
  "C08": "relational whole-program property (no holder observes another holder's mutation); no function contract within reach states it; the local copy/claim mechanics are covered under C05/C18 where claimed",
